@@ -19,11 +19,11 @@ Inductive cstat :=
 Record pstate := mkP {
   idle : option (list nat);      (* None after shutdown(); the Vec: push/pop at the end *)
   stat : nat -> cstat;
-  next_id : nat;
   max_size : nat;
   sends_ok : nat;                (* sends that returned Ok *)
   commits : nat;                 (* messages the server accepted *)
-  sends : nat                    (* send attempts that reached the wire *)
+  sends : nat;                   (* send attempts that reached the wire *)
+  pending : nat                  (* senders that found the idle set empty and have not finished connecting *)
 }.
 
 Inductive event :=
@@ -61,7 +61,15 @@ Definition remove_all (d l : list nat) : list nat := filter (fun x => negb (nmem
 Fixpoint nodup_b (l : list nat) : bool := match l with [] => true | x :: r => negb (nmem x r) && nodup_b r end.
 
 Definition upd (p : pstate) (i : option (list nat)) (f : nat -> cstat) : pstate :=
-  mkP i f (next_id p) (max_size p) (sends_ok p) (commits p) (sends p).
+  mkP i f (max_size p) (sends_ok p) (commits p) (sends p) (pending p).
+Definition with_pending (p : pstate) (n : nat) : pstate :=
+  mkP (idle p) (stat p) (max_size p) (sends_ok p) (commits p) (sends p) n.
+Definition with_counts (p : pstate) (a b c : nat) : pstate :=
+  mkP (idle p) (stat p) (max_size p) a b c (pending p).
+(* a connection a sender holds without a failed send on it: after a successful send, or never used for a
+   send at all (test_connection) *)
+Definition returnable (s : cstat) : bool :=
+  match s with ToRecycle false | InUse => true | _ => false end.
 
 Definition step (p : pstate) (e : event) : option pstate :=
   match e with
@@ -73,39 +81,40 @@ Definition step (p : pstate) (e : event) : option pstate :=
                 end
     | None => None
     end
-  | EPopEmpty => match idle p with Some [] => Some p | _ => None end
+  | EPopEmpty => match idle p with Some [] => Some (with_pending p (S (pending p))) | _ => None end
   | EPopShutdown => match idle p with None => Some p | _ => None end
   | EProbeOk c => if is_stat (stat p c) Probing then Some (upd p (idle p) (set_stat (stat p) c InUse)) else None
   | EProbeFail c => if is_stat (stat p c) Probing then Some (upd p (idle p) (set_stat (stat p) c Closed)) else None
   | EConnectOk c =>
-    if Nat.eqb c (next_id p) then Some (mkP (idle p) (set_stat (stat p) c InUse) (S (next_id p)) (max_size p) (sends_ok p) (commits p) (sends p)) else None
-  | EConnectFail => Some p
+    match pending p with
+    | S n => if is_stat (stat p c) Fresh then Some (with_pending (upd p (idle p) (set_stat (stat p) c InUse)) n) else None
+    | O => None
+    end
+  | EConnectFail => match pending p with S n => Some (with_pending p n) | O => None end
   | ESendOk c =>
     if is_stat (stat p c) InUse
-    then Some (mkP (idle p) (set_stat (stat p) c (ToRecycle false)) (next_id p) (max_size p) (S (sends_ok p)) (S (commits p)) (S (sends p)))
+    then Some (with_counts (upd p (idle p) (set_stat (stat p) c (ToRecycle false))) (S (sends_ok p)) (S (commits p)) (S (sends p)))
     else None
   | ESendErr c committed =>
     if is_stat (stat p c) InUse
-    then Some (mkP (idle p) (set_stat (stat p) c (ToRecycle true)) (next_id p) (max_size p) (sends_ok p)
+    then Some (with_counts (upd p (idle p) (set_stat (stat p) c (ToRecycle true))) (sends_ok p)
                    (if committed then S (commits p) else commits p) (S (sends p)))
     else None
   | ERecyclePark c =>
-    if is_stat (stat p c) (ToRecycle false) then
+    if returnable (stat p c) then
       match idle p with
       | Some l => if Nat.ltb (length l) (max_size p) then Some (upd p (Some (l ++ [c])) (set_stat (stat p) c Idle)) else None
       | None => None
       end
     else None
   | ERecycleClose c =>
-    match stat p c with
-    | ToRecycle true => Some (upd p (idle p) (set_stat (stat p) c Closed))
-    | ToRecycle false =>
+    if is_stat (stat p c) (ToRecycle true) then Some (upd p (idle p) (set_stat (stat p) c Closed))
+    else if returnable (stat p c) then
       match idle p with
       | Some l => if Nat.ltb (length l) (max_size p) then None else Some (upd p (idle p) (set_stat (stat p) c Closed))
       | None => Some (upd p (idle p) (set_stat (stat p) c Closed))
       end
-    | _ => None
-    end
+    else None
   | EShutdown =>
     match idle p with
     | Some l => Some (upd p None (set_all (stat p) l Closed))
@@ -121,7 +130,7 @@ Definition step (p : pstate) (e : event) : option pstate :=
     end
   | EMaintExit => match idle p with None => Some p | _ => None end
   | EMaintConnectOk c =>
-    if Nat.eqb c (next_id p) then Some (mkP (idle p) (set_stat (stat p) c MaintNew) (S (next_id p)) (max_size p) (sends_ok p) (commits p) (sends p)) else None
+    if is_stat (stat p c) Fresh then Some (upd p (idle p) (set_stat (stat p) c MaintNew)) else None
   | EMaintPush c =>
     if is_stat (stat p c) MaintNew then
       match idle p with
@@ -145,7 +154,7 @@ Fixpoint run (tr : list event) (p : pstate) : option pstate :=
   | e :: r => match step p e with Some p' => run r p' | None => None end
   end.
 
-Definition p_init (max : nat) : pstate := mkP (Some []) (fun _ => Fresh) 0 max 0 0 0.
+Definition p_init (max : nat) : pstate := mkP (Some []) (fun _ => Fresh) max 0 0 0 0.
 
 (* replay for the correspondence harness: index of the first rejected event *)
 Fixpoint replay (tr : list event) (p : pstate) (i : nat) : option nat * pstate :=
